@@ -224,6 +224,20 @@ CHECKS["C13"] = dict(engine="E1", cat="model_checking", design="4/C13",
                           "one prefix are refused, disjoint libraries are merged.",
                      note="annotation size bounded; definitions not used under prefixes")
 
+CHECKS["C12"] = dict(engine="E1+E2", cat="model_checking", design="4/C12",
+                     technique="the bounded exhaustive input sets of C01/C07/C08/C16 pushed through every validation entry "
+                               "point x warnings on/off x context handler on/off, plus repeated decoration and all "
+                               "permutations of small issue lists for sorting",
+                     text="~8k strings (vocabulary, structure, templates, mutations) x placeholders x warnings x handler, "
+                          "sidecars (C08 faults and valid ones), tables and 4-column spreadsheets (C07 families), 24 dataset "
+                          "trees: every issue has code/message/severity; offsets lie inside the text and inside the named "
+                          "tag, select exactly index_in_tag..index_in_tag_end of its original text and that text occurs in the "
+                          "message; the location suffix occurs once, also after decorating 2 and 3 times; errors-only equals "
+                          "the error subset of warnings-on; reference replacement gives JSON-serialisable issues with the "
+                          "same codes; sort_issues equals a stable reference sort on (file, sidecar column, key, row) for "
+                          "every permutation of every list of <= 4 issues over the context grid.",
+                     note="'quoted in the message' is checked as substring occurrence; inputs restricted to schema 8.3.0")
+
 PENDING_REASON = "check not built yet in this revision (planned in DESIGN.md section 4); not claimed until it is"
 
 
